@@ -196,6 +196,17 @@ def _run_on_pty(args, env, cwd, preexec, timeout, ids):
         os.close(master)
 
 
+def _dump_stacks(pid, amb):
+    """a run that does not finish: keep the stacks of all its threads for the post-mortem (best effort)"""
+    try:
+        r = subprocess.run(['gdb', '-batch', '-ex', 'thread apply all bt', '-p', str(pid)], stdout=subprocess.PIPE, stderr=subprocess.STDOUT,
+                           timeout=60)
+        with open(os.path.join(WORKROOT, 'hang-%d-%d.txt' % (os.getpid(), amb)), 'wb') as f:
+            f.write(r.stdout)
+    except (OSError, subprocess.SubprocessError):
+        pass
+
+
 NOBODY = 54321          # a uid/gid without passwd entry
 _switch = None
 
@@ -237,19 +248,21 @@ def _open_up(root):
 
 def run_parser(datadir, cb, dump=None, coin=None, start=None, end=None, verify=False, env=None, trace=None,
                fsize=None, nofile=None, timeout=60, threads=None, verbose=0, read_files=True, extra_args=(), mkdump=True,
-               abort_at=None, skip=None, release=None, pty=None, aslimit=None):
+               abort_at=None, skip=None, release=None, pty=None, aslimit=None, force_amb=None, pin=None):
     """run the hooked binary; cb in csvdump|unspentcsvdump|balances|simplestats|opreturn.
     Ambient variation: options that must not influence any result (verbosity, size of the thread pool) are varied from run
     to run unless the caller fixes them, so that every check also exercises them."""
     global _ambient
     with _amb_lock:
         _ambient += 1
-        amb = _ambient
+        amb = _ambient if force_amb is None else force_amb       # (force_amb: reproduce one particular ambient combination)
     if os.environ.get('RBP_VERIF_NO_AMBIENT') is None:
         if verbose == 0:
             verbose = (0, 0, 0, 1, 0, 0, 2)[amb % 7]
         if threads is None:
-            threads = (None, None, 1, None, 3, None)[amb % 6]
+            threads = (None, None, 1, None, 3, None, 0)[amb % 7]      # (0 = rayon's default, spelled out)
+    if pin is None:
+        pin = os.environ.get('RBP_VERIF_NO_AMBIENT') is None and amb % 17 == 9 and threads is None
     bare = False
     if os.environ.get('RBP_VERIF_NO_AMBIENT') is None and amb % 11 == 5 and fsize is None and nofile is None and abort_at is None:
         bare = True            # the process environment is no input either: empty environment, uid without passwd entry
@@ -268,6 +281,9 @@ def run_parser(datadir, cb, dump=None, coin=None, start=None, end=None, verify=F
     if release and not COVERAGE and os.path.exists(BIN_RELEASE):
         binary = BIN_RELEASE
     args = [binary, '-d', dd_arg]
+    if pin and shutil.which('taskset'):
+        # the process may use a single CPU (cpuset, one-core container): the default pool has one thread
+        args = ['taskset', '-c', str(sorted(os.sched_getaffinity(0))[amb % len(os.sched_getaffinity(0))])] + args
     if coin:
         args += ['-c', coin]
     if start is not None:
@@ -341,9 +357,16 @@ def run_parser(datadir, cb, dump=None, coin=None, start=None, end=None, verify=F
                 os.makedirs(WORKROOT, exist_ok=True)
                 to_file = open(os.path.join(WORKROOT, 'stdout-%d-%d' % (os.getpid(), amb)), 'w+b')
             try:
-                r = subprocess.run(args, env=e, stdout=to_file or subprocess.PIPE, stderr=subprocess.PIPE, cwd=cwd,
-                                   preexec_fn=pre if need_pre else None, timeout=timeout, **ids)
-                rc, out, err = r.returncode, r.stdout, r.stderr
+                pr = subprocess.Popen(args, env=e, stdout=to_file or subprocess.PIPE, stderr=subprocess.PIPE, cwd=cwd,
+                                      preexec_fn=pre if need_pre else None, **ids)
+                try:
+                    out, err = pr.communicate(timeout=timeout)
+                except subprocess.TimeoutExpired:
+                    _dump_stacks(pr.pid, amb)
+                    pr.kill()
+                    o2, e2 = pr.communicate()
+                    raise subprocess.TimeoutExpired(args, timeout, output=o2, stderr=e2)
+                rc = pr.returncode
                 if to_file:
                     to_file.seek(0)
                     out = to_file.read()
